@@ -202,6 +202,14 @@ def classify(ranges):
     return blocked, unblocked, und
 
 
+def cross_check(spec, rids, open_ids, blocked_from_ranges):
+    """The blocked set derived from the exact ranges must be the one oracles.blocked computes (harness self-check;
+    all generated bounds lie within +-1000, so 'widen' and 'set to +-1000' coincide)."""
+    ref = oracles.blocked(spec, rids, open_ids)
+    if ref is None or sorted(ref) != sorted(blocked_from_ranges):
+        raise RuntimeError(f"oracle disagreement: blocked() = {ref}, from exact ranges = {sorted(blocked_from_ranges)}")
+
+
 def fmt_range(rg):
     lo, hi = rg
     f = lambda x: "inf" if x is None else (str(x) if x.denominator == 1 else f"{float(x):.6g}")  # noqa: E731
@@ -267,6 +275,7 @@ def check_blocked(case, ctx):
     spec_o = widened(spec, ex)
     ranges_all = exact_ranges(spec_o, rids_all)
     blocked_all, unblocked_all, und_all = classify(ranges_all)
+    cross_check(spec, rids_all, ex, blocked_all)
     classes += network_classes(spec_o, blocked_all, unblocked_all)
     if case["open_exchanges"]:
         closed_blocked, _, _ = classify(exact_ranges(spec, rids_all))
@@ -278,7 +287,7 @@ def check_blocked(case, ctx):
     except Exception as e:  # noqa: BLE001 - nothing is documented to raise on these inputs
         d = observe.diff(before, observe.snapshot(model), limit=3)
         tail = f"; the model was left changed: {d}" if d else ""
-        if case["list_mode"] in ("ids", "mixed") and isinstance(e, AttributeError):
+        if mode in ("ids", "mixed") and isinstance(e, AttributeError):
             _v("blocked-crash-id-strings", f"find_blocked_reactions(reaction_list={arg!r}) raised {type(e).__name__}: {str(e)[:160]} "
                                            f"although reaction_list is documented as 'list of cobra.Reaction or str'{tail}")
         _v("blocked-crash", f"find_blocked_reactions(reaction_list={arg!r}, open_exchanges={case['open_exchanges']}, "
@@ -346,6 +355,7 @@ def check_fastcc(case, ctx):
     classes = list(case.get("labels", ())) + ["fastcc", f"solver-{spec['solver']}"]
     ranges = exact_ranges(spec, rids_all)
     blocked_all, unblocked_all, und = classify(ranges)
+    cross_check(spec, rids_all, (), blocked_all)
     classes += network_classes(spec, blocked_all, unblocked_all)
     nontrivial = bool(blocked_all) and bool(unblocked_all) and any(reversible(r) for r in spec["rxns"])
     if und:
@@ -449,10 +459,10 @@ def fastcc_phase(ctx):
 def phases(tier):
     # the engine runs the phases one after the other, so each may use all processes of the tier
     if tier == "quick":
-        return [Phase("blocked", blocked_phase, shards=8, params={"max_examples": 200, "budget_s": 30}),
-                Phase("fastcc", fastcc_phase, shards=8, params={"max_examples": 150, "budget_s": 28})]
-    return [Phase("blocked", blocked_phase, shards=16, params={"max_examples": 3000, "budget_s": 260}),
-            Phase("fastcc", fastcc_phase, shards=16, params={"max_examples": 2000, "budget_s": 260})]
+        return [Phase("blocked", blocked_phase, shards=8, params={"max_examples": 200, "budget_s": 27}),
+                Phase("fastcc", fastcc_phase, shards=8, params={"max_examples": 150, "budget_s": 25})]
+    return [Phase("blocked", blocked_phase, shards=16, params={"max_examples": 3000, "budget_s": 250}),
+            Phase("fastcc", fastcc_phase, shards=16, params={"max_examples": 2000, "budget_s": 250})]
 
 
 CHECKS = {"c19": check_case}
